@@ -1,5 +1,6 @@
 import MidoProofs.SrcTie.Meta
 import MidoProofs.SrcTie.Vlq
+import MidoProofs.SrcTie.MetaFrame
 #print axioms Mido.src_check_int
 #print axioms Mido.src_meta_sequence_number_encode
 #print axioms Mido.src_meta_channel_prefix_encode
@@ -18,3 +19,10 @@ import MidoProofs.SrcTie.Vlq
 #print axioms Mido.isPow2_iff
 #print axioms Mido.src_meta_time_signature_check
 #print axioms Mido.src_decode_variable_int
+#print axioms Mido.src_scan_loop
+#print axioms Mido.decode_variable_int_total
+#print axioms Mido.src_meta_from_bytes
+#print axioms Mido.src_meta_from_bytes_model
+#print axioms Mido.src_meta_bytes
+#print axioms Mido.src_meta_bytes_err
+#print axioms Mido.src_unknown_meta_bytes
